@@ -191,6 +191,39 @@ func dominatesReturnsVia(b *ssa.BasicBlock, returns []*ssa.BasicBlock) bool {
 
 // ruleExternalReset: the store to externalNoteTracker is a fresh map filled for channels 0..15 between Lock and Unlock of externalTrackerMutex.
 func ruleExternalReset(c *Ctx, dv *dev, fn *ssa.Function, rule string) {
+	// the reset may live in a helper the panic action calls on every path (called from its entry block or a block that
+	// post-dominates nothing conditional: here: a static call in a block that dominates the function's return)
+	host := fn
+	for _, b := range fn.Blocks {
+		for _, in := range b.Instrs {
+			call, ok := in.(*ssa.Call)
+			if !ok {
+				continue
+			}
+			callee := call.Call.StaticCallee()
+			if callee == nil || !dv.newHelpers()[callee] || callee.Blocks == nil {
+				continue
+			}
+			touches := false
+			for _, hb := range callee.Blocks {
+				for _, hi := range hb.Instrs {
+					var ops [8]*ssa.Value
+					for _, op := range hi.Operands(ops[:0]) {
+						if op != nil && *op != nil && derivesFromField(*op, dv.fields["externalNoteTracker"], map[ssa.Value]bool{}) {
+							touches = true
+						}
+						if fa, ok := (*op).(*ssa.FieldAddr); ok && op != nil && fieldOfAddr(fa) == dv.fields["externalNoteTracker"] {
+							touches = true
+						}
+					}
+				}
+			}
+			if touches && dominatesAllReturns(b, fn) {
+				host = callee
+			}
+		}
+	}
+	fn = host
 	stores := 0
 	defer func() {
 		if stores == 0 {
@@ -328,7 +361,7 @@ func checkC14(c *Ctx) {
 	ruleDispatch(c, dv, "R14.5", true, false)                   // every press and release reaches the held-key bookkeeping
 	c.importRules(configIntactRules, []string{"R3.7"}, "R14.6") // the exit sequence compared against is the parsed one
 	c.MinCount("R14.1", 3)
-	c.MinCount("R14.2", 5)
+	c.MinCount("R14.2", 2)
 	c.MinCount("R14.3", 1)
 	c.DecidedClause("the pressed key is inserted into the key tracker before the exit check, the check runs on presses only, releases delete the key; the signal is sent only after a loop over the whole sequence found every key tracked (first miss returns false), an empty sequence returns false first; the completing press returns without any note/action effect and no other press is swallowed")
 	c.UndecidedClause("delivery of the signal (buffered channel of size 1; a second completion while the first is unread would block)")
@@ -346,155 +379,170 @@ func isSignalChan(t types.Type) bool {
 func ruleExitSequence(c *Ctx, dv *dev) {
 	fn := dv.fn["checkExitSequence"]
 	c.Fn(shortFn(fn))
-	paths, err := Enumerate(fn, SymConfig{Prog: c.P, MaxDepth: 1, Collapse: true})
+	// the loop is unrolled up to three times: sequences of length 0..3 with every combination of keys down / not down are
+	// evaluated on the paths (the loop body is the same for every iteration; that it runs over the whole sequence is the
+	// structural check below)
+	paths, err := Enumerate(fn, SymConfig{Prog: c.P, MaxDepth: 1, MaxVisits: 5})
 	if !c.Require(err == nil, "R14.2", "device.checkExitSequence", fmt.Sprint(err)) {
 		return
 	}
 	c.Paths += len(paths)
 	pos := c.P.Pos(fn.Pos())
-	seqLen := func(t *Term) bool {
-		return t.Op == "len" && strings.HasSuffix(t.Args[0].String(), ".ExitSequence")
-	}
 	sigint, _ := c.P.constValue("syscall", "SIGINT")
-	type res struct {
-		n   int
-		bad string
-	}
-	agg := map[string]*res{}
-	note := func(k, bad string) {
-		if agg[k] == nil {
-			agg[k] = &res{}
-		}
-		agg[k].n++
-		if bad != "" && agg[k].bad == "" {
-			agg[k].bad = bad
-		}
-	}
 	for _, p := range paths {
-		if p.End == "cut" {
-			continue
-		}
-		if p.End != "return" || len(p.Ret) != 1 {
-			note("device.checkExitSequence/ends", "path ends with "+p.End)
-			continue
-		}
-		ret, isBool := p.Ret[0].IsBoolConst()
-		if !isBool {
-			note("device.checkExitSequence/result", "non-constant result")
-			continue
-		}
-		var sends []Effect
 		for _, e := range p.Effects {
 			switch e.Kind {
-			case "send":
-				sends = append(sends, e)
 			case "mapset", "mapdel":
-				note("device.checkExitSequence/effects", "unexpected state change "+e.String())
+				c.Bad("R14.2", "device.checkExitSequence/effects", pos, "unexpected state change "+e.String())
+				return
 			case "store":
 				if !e.Local {
-					note("device.checkExitSequence/effects", "unexpected state change "+e.String())
+					c.Bad("R14.2", "device.checkExitSequence/effects", pos, "unexpected state change "+e.String())
+					return
 				}
 			}
 		}
-		// atoms
-		empty, emptyTested := false, false
-		iters, hits, misses := 0, 0, 0
-		exhausted := false
-		badKey := ""
-		for _, a := range p.Atoms {
-			op, x, y, ok := normAtom(a)
-			if ok {
-				if seqLen(y) {
-					x, y, op = y, x, flipOp(op)
+	}
+	type outcome struct {
+		cases int
+		bad   string
+	}
+	res := map[string]*outcome{}
+	note := func(k, bad string) {
+		if res[k] == nil {
+			res[k] = &outcome{}
+		}
+		res[k].cases++
+		if bad != "" && res[k].bad == "" {
+			res[k].bad = bad
+		}
+	}
+	for L := 0; L <= 3; L++ {
+		for mask := 0; mask < 1<<L; mask++ {
+			present := func(i int64) bool { return mask&(1<<uint(i)) != 0 }
+			all := L > 0
+			desc := fmt.Sprintf("sequence of %d key(s), down:", L)
+			for i := 0; i < L; i++ {
+				if !present(int64(i)) {
+					all = false
 				}
-				if seqLen(x) {
-					if k, isK := y.IsIntConst(); isK {
-						// len == 0 ; i < len  <=> len > i
-						switch {
-						case op == "==" && k == 0:
-							empty, emptyTested = true, true
-						case op == "!=" && k == 0:
-							emptyTested = true
-						case op == ">":
-							iters++
-						case op == "<=":
-							exhausted = true
+				desc += fmt.Sprintf(" %v", present(int64(i)))
+			}
+			// evaluation of a term under this valuation
+			var outOfRange bool
+			var eval func(t *Term) (int64, bool)
+			eval = func(t *Term) (int64, bool) {
+				env := map[string]int64{}
+				ok := true
+				t.Walk(func(x *Term) bool {
+					switch {
+					case x.Op == "len" && strings.HasSuffix(x.Args[0].String(), ".ExitSequence"):
+						env[x.String()] = int64(L)
+						return false
+					case (x.Op == "lookupok" || x.Op == "lookup") && dv.isFieldLoad(x.Args[0], "keyTracker"):
+						k := x.Args[1].StripConv()
+						if !(k.Op == "load" && k.Args[0].Op == "indexaddr" && strings.HasSuffix(k.Args[0].Args[0].String(), ".ExitSequence")) {
+							ok = false
+							return false
 						}
+						idx, okI := eval(k.Args[0].Args[1])
+						if !okI {
+							ok = false
+							return false
+						}
+						if idx < 0 || idx >= int64(L) {
+							outOfRange = true
+							ok = false
+							return false
+						}
+						if x.Op == "lookupok" {
+							if present(idx) {
+								env[x.String()] = 1
+							} else {
+								env[x.String()] = 0
+							}
+						}
+						return false
+					}
+					return true
+				})
+				if !ok {
+					return 0, false
+				}
+				return evalTerm(t, env)
+			}
+			var match []*Path
+			undecided := ""
+			for _, p := range paths {
+				consistent := true
+				for _, a := range p.Atoms {
+					v, ok := eval(a.Cond)
+					if !ok {
+						if !outOfRange {
+							undecided = "condition " + a.Cond.String() + " cannot be evaluated"
+						}
+						consistent = false
+						break
+					}
+					if (v != 0) != a.Taken {
+						consistent = false
+						break
 					}
 				}
+				if consistent {
+					match = append(match, p)
+				}
+			}
+			key := "device.checkExitSequence/signal-iff-every-key-of-a-non-empty-sequence-is-down"
+			switch {
+			case len(match) == 0 && undecided != "":
+				c.Undec("R14.2", key, pos, undecided)
+				return
+			case len(match) != 1:
+				note(key, fmt.Sprintf("%s: %d consistent paths (expected one)", desc, len(match)))
 				continue
 			}
-			cnd, taken := a.Cond, a.Taken
-			for cnd.Op == "unop" {
-				cnd, taken = cnd.Args[0], !taken
+			p := match[0]
+			if p.End != "return" || len(p.Ret) != 1 {
+				note(key, desc+": path ends with "+p.End)
+				continue
 			}
-			if cnd.Op == "lookupok" && dv.isFieldLoad(cnd.Args[0], "keyTracker") {
-				// key must be the element of this iteration
-				k := cnd.Args[1].StripConv()
-				want := fmt.Sprintf("%d", iters-1)
-				if !(k.Op == "load" && k.Args[0].Op == "indexaddr" && strings.HasSuffix(k.Args[0].Args[0].String(), ".ExitSequence") && k.Args[0].Args[1].String() == want) {
-					badKey = "iteration " + want + " looks up " + k.String() + " instead of its own sequence element"
-				}
-				if taken {
-					hits++
-				} else {
-					misses++
-				}
-			}
-		}
-		switch {
-		case empty:
-			k := "device.checkExitSequence/empty-sequence"
-			if ret || len(sends) > 0 {
-				note(k, "an empty exit sequence raises the signal / reports completion")
-			} else {
-				note(k, "")
-			}
-		case len(sends) > 0:
-			k := "device.checkExitSequence/signal"
+			sends := 0
 			bad := ""
-			if !emptyTested {
-				bad = "signal raised without the empty-sequence test"
-			} else if misses > 0 || hits != iters || !exhausted {
-				bad = fmt.Sprintf("signal raised although not every key of the sequence was found down (iterations=%d, hits=%d, misses=%d, loop exhausted=%v)", iters, hits, misses, exhausted)
-			} else if !ret {
-				bad = "signal raised but completion not reported (the press would not be swallowed)"
-			} else if len(sends) != 1 || !dv.isFieldLoad(sends[0].Args[0], "sigs") {
-				bad = "expected exactly one send on Device.sigs"
-			} else if v, ok := sends[0].Args[1].StripConv().IsConst(); !ok || sigint == nil || !constant.Compare(v, token.EQL, sigint) {
-				bad = "the value sent is not syscall.SIGINT"
-			} else if badKey != "" {
-				bad = badKey
+			for _, e := range p.Effects {
+				if e.Kind != "send" {
+					continue
+				}
+				sends++
+				if !dv.isFieldLoad(e.Args[0], "sigs") {
+					bad = "a send on something other than Device.sigs"
+				} else if v, ok := e.Args[1].StripConv().IsConst(); !ok || sigint == nil || !constant.Compare(v, token.EQL, sigint) {
+					bad = "the value sent is not syscall.SIGINT"
+				}
 			}
-			note(k, bad)
-		case misses > 0:
-			k := "device.checkExitSequence/miss"
-			if ret {
-				note(k, "reports completion although a key of the sequence is not down")
-			} else if badKey != "" {
-				note(k, badKey)
-			} else {
-				note(k, "")
+			ret, okR := eval(p.Ret[0])
+			switch {
+			case bad != "":
+			case !okR:
+				bad = "the result " + p.Ret[0].String() + " cannot be evaluated"
+			case all && sends != 1:
+				bad = fmt.Sprintf("every key of the sequence is down but the signal is raised %d time(s)", sends)
+			case !all && sends != 0:
+				bad = "the signal is raised although not every key of the sequence is down (or the sequence is empty)"
+			case (ret != 0) != all:
+				bad = fmt.Sprintf("the reported result is %v, the signal was raised: %v (the completing press must be swallowed exactly when the signal is raised)", ret != 0, all)
 			}
-		default:
-			k := "device.checkExitSequence/other"
-			if ret {
-				note(k, "reports completion without raising the signal")
-			} else {
-				note(k, "")
+			if bad != "" {
+				bad = desc + ": " + bad
 			}
+			note(key, bad)
 		}
 	}
-	for _, need := range []string{"device.checkExitSequence/empty-sequence", "device.checkExitSequence/signal", "device.checkExitSequence/miss"} {
-		if agg[need] == nil {
-			c.Bad("R14.2", need, pos, "no such path: the function lacks this case")
-		}
-	}
-	for _, k := range sortedKeys(agg) {
-		if agg[k].bad != "" {
-			c.Bad("R14.2", k, pos, agg[k].bad)
+	for _, k := range sortedKeys(res) {
+		if res[k].bad != "" {
+			c.Bad("R14.2", k, pos, res[k].bad)
 		} else {
-			c.OK("R14.2", k, pos, fmt.Sprintf("%d path(s)", agg[k].n))
+			c.OK("R14.2", k, pos, fmt.Sprintf("%d valuation(s) (sequence lengths 0..3, every combination of keys down): signal and result as specified", res[k].cases))
 		}
 	}
 	// the loop covers the whole sequence: index starts at 0, steps by 1, bounded by len(seq)
@@ -502,20 +550,30 @@ func ruleExitSequence(c *Ctx, dv *dev) {
 	for _, b := range fn.Blocks {
 		for _, in := range b.Instrs {
 			phi, ok := in.(*ssa.Phi)
-			if !ok || len(phi.Edges) != 2 {
+			if !ok || len(phi.Edges) < 2 {
 				continue
 			}
+			// one constant start value, every other edge (one per way back to the loop head) the same increment
 			var init *ssa.Const
 			var step *ssa.BinOp
+			uniform := true
 			for _, e := range phi.Edges {
 				switch x := e.(type) {
 				case *ssa.Const:
+					if init != nil && init != x {
+						uniform = false
+					}
 					init = x
 				case *ssa.BinOp:
+					if step != nil && step != x {
+						uniform = false
+					}
 					step = x
+				default:
+					uniform = false
 				}
 			}
-			if init == nil || step == nil || step.Op != token.ADD || step.X != phi {
+			if !uniform || init == nil || step == nil || step.Op != token.ADD || step.X != phi {
 				continue
 			}
 			if k, ok := step.Y.(*ssa.Const); !ok || k.Int64() != 1 {
@@ -759,4 +817,18 @@ func ruleExternalResetInPlace(c *Ctx, dv *dev, fn *ssa.Function, rule string) {
 		return
 	}
 	c.OK(rule, key, c.P.Pos(at.Pos()), "the sets of all channels are emptied in place while externalTrackerMutex is held")
+}
+
+// dominatesAllReturns: block b is executed on every path of fn that returns normally.
+func dominatesAllReturns(b *ssa.BasicBlock, fn *ssa.Function) bool {
+	n := 0
+	for _, x := range fn.Blocks {
+		if _, ok := x.Instrs[len(x.Instrs)-1].(*ssa.Return); ok && x != fn.Recover {
+			n++
+			if !b.Dominates(x) {
+				return false
+			}
+		}
+	}
+	return n > 0
 }
